@@ -21,15 +21,20 @@ FUEL = 120
 
 # ---------------------------------------------------------------- classifier (mirror of Coq ctx_constant)
 def ctx_constant(dump):
-    """Mirror of PegProofs.ctx_constant (the class of the proved theorem; compared with Coq's own
-    evaluation on every generated grammar): no node sets ws/skipws, no eolterm, no unordered group,
-    no comment model."""
-    if dump["comments"] is not None:
+    """Mirror of PegProofs.ctx_constant (compared with Coq's own evaluation on every generated grammar):
+    no node sets ws/skipws, no eolterm, comment model absent or a single terminal."""
+    c = dump["comments"]
+    if c is not None and dump["nodes"][c]["kind"] not in ("KStr", "KRegex", "KEOF"):
         return False
     for n in dump["nodes"]:
         if n["ws"] is not None or n["skipws"] is not None or n["eolterm"]:
             return False
     return True
+
+
+def theorem_applies(dump):
+    """Hypotheses of C19_memo_safe_partial: in the class, and (parser skipws on, or no Comment rule)."""
+    return ctx_constant(dump) and (dump["skipws"] or dump["comments"] is None)
 
 
 def _reach(dump, start):
@@ -179,8 +184,8 @@ def run(chk):
         if coq_cls.get(ci) != ("T" if cc else "F") or (cc and cdep):
             disagreements.append({"case": {"grammar": case["grammar"]}, "impl": "classifier ctx_constant=%s context_dependent=%s" % (cc, cdep),
                                   "model": "Coq ctx_constant = %s" % coq_cls.get(ci)})
-        chk.stat("grammars: %s" % ("ctx_constant" if cc else ("context-dependent" if cdep else (
-            "memoizable comment model" if memoizable_comment_model(d) else "other (terminal comment model / unordered group)"))))
+        chk.stat("grammars: %s" % (("in the proved class" if theorem_applies(d) else "in the class, Comment rule with skipws=False (unproved)") if cc else (
+            "context-dependent" if cdep else ("memoizable comment model" if memoizable_comment_model(d) else "other"))))
         for ii, (text, run_) in enumerate(zip(case["inputs"], res["runs"])):
             if run_.get("timeout") or run_.get("unsupported"):
                 chk.stat("input skipped (timeout/unsupported)")
@@ -201,7 +206,7 @@ def run(chk):
                     disagreements.append({"case": cinfo, "impl": [t_off, t_on], "model": [mo, mn]})
                 if mo != mn:
                     chk.stat("model: memo changes outcome")
-                    if cc and not mo.startswith("A:"):
+                    if theorem_applies(d) and not mo.startswith("A:"):
                         # an instance of C19_memo_safe_partial evaluated on the model: cannot differ
                         disagreements.append({"case": cinfo, "impl": [t_off, t_on], "model": [mo, mn, "theorem instance violated in the model"]})
             # glue: the textX-level outcome must be the Arpeggio-level one (acceptance and error position)
